@@ -36,6 +36,7 @@ from .common import (
     MAX_MAGICS,
     URL_STARTS,
     add_newline_to_expansion,
+    is_positional_name,
     nowiki_quote,
 )
 from .logging_utils import logger
@@ -1418,7 +1419,7 @@ class Wtp:
                             expand_args(args[0], argmap), parent, True
                         ).strip()
                         self.expand_stack.pop()
-                        if k.isdecimal() and int(k) > 0:
+                        if is_positional_name(k):
                             k = int(k)
                         else:
                             k = re.sub(r"\s+", " ", k).strip()
@@ -1649,7 +1650,7 @@ class Wtp:
                             # https://en.wikipedia.org/wiki/Help:Template
                             # (but not around unnamed parameters)
                             k, arg = m2.groups()
-                            if k.isdecimal() and int(k) > 0:
+                            if is_positional_name(k):
                                 k = int(k)
                             else:
                                 self.expand_stack.append("ARGNAME")
